@@ -126,11 +126,32 @@ func defaultsHelperShape(fd *ast.FuncDecl) bool {
 		return false
 	}
 	for i := range want {
+		if i == len(want)-1 && seq[i] == req+".Variables["+vd+".Variable] = emptyListsNotNil(value)" {
+			continue // the default `[]` is kept as a list (fact emptyListDefaultsKept)
+		}
 		if seq[i] != want[i] {
 			return false
 		}
 	}
 	return true
+}
+
+// emptyListDefaultsKept: the helper stores `emptyListsNotNil(value)`: (*ast.Value).Value returns a
+// nil slice for an EMPTY list literal, which encoding/json writes as null.
+func emptyListDefaultsKept(repo string) bool {
+	f := parseFile(filepath.Join(repo, "gateway.go"))
+	fd := findFunc(f, "applyDeclaredDefaults", "")
+	if fd == nil || fd.Body == nil || findFunc(f, "emptyListsNotNil", "") == nil {
+		return false
+	}
+	kept := false
+	ast.Inspect(fd.Body, func(n ast.Node) bool {
+		if as, ok := n.(*ast.AssignStmt); ok && len(as.Rhs) == 1 && norm(as.Rhs[0]) == "emptyListsNotNil(value)" {
+			kept = true
+		}
+		return true
+	})
+	return kept
 }
 
 // callBetween: inside fd, `helper(operation, request)` is called after the operation has been
@@ -198,6 +219,9 @@ func genVars(repo string) string {
 		"def declaredDefaultsApplied : Bool := " + leanBool(defaultsQuery) + "\n\n" +
 		"/-- the `start` arm of subscriptionHandler does the same before newSubscriptionEntry -/\n" +
 		"def declaredDefaultsAppliedSubscription : Bool := " + leanBool(defaultsSub) + "\n\n" +
+		"/-- applyDeclaredDefaults keeps an empty-list default (also nested) as `[]` (`emptyListsNotNil`);\n" +
+		"    without it gqlparser's nil slice is sent as null -/\n" +
+		"def emptyListDefaultsKept : Bool := " + leanBool(emptyListDefaultsKept(repo)) + "\n\n" +
 		"/-- format.go records variable types through `setVariableType` (the strictest type of all positions\n" +
 		"    wins) and nowhere by plain map assignment -/\n" +
 		"def strictestTypeWins : Bool := " + leanBool(strictestTypeWins(repo)) + "\n\n" +
